@@ -46,7 +46,7 @@ from models.router_walk import LIT, MULTI, SINGLE, Node, Tree, Unspecified, free
 
 PROPERTY = 'C01'
 LEVEL = 'exploration'
-RUNS = {'quick': 60000, 'thorough': 2000000}
+RUNS = {'quick': 60000, 'thorough': 1500000}
 BATCH = 400
 RULE = ('one run = one history of <=10 operations on one CompiledRouter: add_route(template) / '
         'add_route(template, compile=True) / a batch of find(path); templates are valid (literal, '
